@@ -140,6 +140,7 @@ func (r *Raft) run() {
 		case <-r.shutdownCh:
 			// Clear the leader to prevent forwarding
 			r.setLeader("", "")
+			r.failQueuedRequests()
 			return
 		default:
 		}
@@ -151,6 +152,25 @@ func (r *Raft) run() {
 			r.runCandidate()
 		case Leader:
 			r.runLeader()
+		}
+	}
+}
+
+// failQueuedRequests answers the requests that were accepted into a buffered
+// channel but will never be looked at because the main loop is exiting.
+func (r *Raft) failQueuedRequests() {
+	for {
+		select {
+		case a := <-r.applyCh:
+			a.respond(ErrRaftShutdown)
+		case v := <-r.verifyCh:
+			v.respond(ErrRaftShutdown)
+		case l := <-r.leadershipTransferCh:
+			l.respond(ErrRaftShutdown)
+		default:
+			// Nothing is queued for the FSM routine after this point either.
+			r.failQueuedFSMRequests()
+			return
 		}
 	}
 }
@@ -2308,6 +2328,9 @@ func (r *Raft) pickServer() *Server {
 func (r *Raft) initiateLeadershipTransfer(id *ServerID, address *ServerAddress) LeadershipTransferFuture {
 	future := &leadershipTransferFuture{ID: id, Address: address}
 	future.init()
+	// leadershipTransferCh is buffered: the request can be accepted after, or
+	// sit in the channel during, a shutdown.
+	future.ShutdownCh = r.shutdownCh
 
 	if id != nil && *id == r.localID {
 		err := fmt.Errorf("cannot transfer leadership to itself")
